@@ -646,7 +646,24 @@ void visit(Position& P, const Board& B, GameHist& gh, const std::string& last_op
         if (PROP == "C01" && (f.checkers || f.has_ep || f.pinned || f.castle_right)) rec.nontrivial(vh::fnv(B.key4()));
         if (legal.size() >= 100) rec.count("positions-with-100+-moves");
     }
-    if (PROP == "C01") check_c01(P, B, legal);
+    if (PROP == "C01")
+    {
+        check_c01(P, B, legal);
+        // what `perft` uses: nested make/unmake on one shared position. Totals against the oracle, then the root list again
+        // (a move list derived from state that an unbalanced undo corrupted shows up here, not in a fresh position)
+        bool promo_tpl = tag.find("promo") != std::string::npos;
+        if (legal.size() <= 40 && ((g_positions % 64) == 0 || (promo_tpl && (g_positions % 4) == 0)))
+        {
+            int d = legal.size() <= 12 ? 4 : 3;
+            uint64_t e = perft(P, d), o = orc::perft(B, d);
+            rec.evaluations++;
+            rec.count("perft-differentials");
+            if (e != o)
+                rec.violation("perft-total-mismatch:depth" + std::to_string(d) + (promo_tpl ? ":promo-template" : ""),
+                              vh::J().str("fen", B.fen()).num("depth", d).num("engine", (long long)e).num("oracle", (long long)o).done());
+            check_c01(P, B, legal);
+        }
+    }
     else if (PROP == "C02") check_c02(P, B, legal);
     else if (PROP == "C03")
     {
